@@ -31,6 +31,18 @@ shrink = sp.shrink
 mutate = sp.mutate
 
 
+def extra_obligations():
+    """the enter/exit IR regenerated from /repo's current access.py, restoration obligations re-checked by Lean"""
+    from harness import core, extract_ir
+
+    r = extract_ir.check(core.REPO, core.LEAN)
+    if r["status"] == "unrecognised":
+        return [{"name": "Haiway.Generated.*", "status": "skipped",
+                 "note": "extractor does not recognise the shape of ScopeContext enter/exit: " + r["detail"]}]
+    return [{"name": f"Haiway.Generated.{n}", "status": "broken" if n in r["failed"] or (r["status"] == "broken" and r["failed"] == ["<elaboration>"]) else "ok",
+             "detail": r["detail"], "note": "regenerated from access.py"} for n in extract_ir.OBLIGATIONS]
+
+
 def corpus():
     return list(cd.single_block_family(1))
 
@@ -64,6 +76,8 @@ def block_facts(case: str, out: str):
         elif k == "end" and e[2] not in ("ok", "Cancelled"):
             failures.append(idx)
             disturb.append(idx)
+        elif k == "raise" or (k == "bodyend" and e[3] != "ok"):
+            disturb.append(idx)  # a failing body makes TaskGroup cancel the members
         b = None
         if k in ("pre", "post", "enter", "bodyend", "left"):
             b = int(e[2])
